@@ -21,7 +21,7 @@ from .. import tsparse
 from ..core import Violation, call
 
 ENTRIES = ['parse_dict', 'parse_text', 'parse_stream', 'construct', 'new_version_changes', 'bundle',
-           'bundle_dict', 'mem_add', 'mem_add_list', 'fs_add', 'fs_add_text', 'fs_read', 'mem_load', 'parse_observable', 'env_add', 'late_registered']
+           'bundle_dict', 'mem_add', 'mem_add_list', 'fs_add', 'fs_add_text', 'fs_read', 'mem_load', 'parse_observable', 'env_add', 'late_registered', 'fs_add_bundle']
 # The error-family clause is stated for parsing and constructing; for store entry points only exceptions that
 # come out of the parse/construct step are judged (innermost library frame outside stix2/datastore), and the
 # failure-atomicity clause is checked for every failing call.
@@ -264,7 +264,7 @@ class C17(Profile):
     probes = ['corruption_at_depth>=3', 'corruption_in_extension', 'corruption_in_embedded_object', 'stored_file_corrupted',
               'saved_bundle_corrupted', 'stream_input', 'call_raised_library_error', 'call_returned', 'atomicity_checked_store',
               'atomicity_checked_registry', 'list_add_prefix_checked', 'multi_site_corruption', 'observed_data_member_corrupted', 'two_toplevel_extensions',
-              'deep_nesting_injected', 'type_registered_after_first_parse', 'failing_type_registration', 'member_order_varied']
+              'deep_nesting_injected', 'type_registered_after_first_parse', 'failing_type_registration', 'member_order_varied', 'bundle_given_to_filesystem_sink']
     rule = ('plans: 30-80 calls; each takes a valid object (every SDO/SRO type of both versions, 2.1 SCOs, SCOs with nested extensions, 2.0 '
             'observed-data with members, marking definitions, language-content), applies 1-3 wrong-kind replacements at plan-chosen sites of any '
             'depth (incl. values nested 120-800 levels), and delivers it through one of 16 entry points (parse of dict/text/stream, constructor, new_version, Bundle, '
@@ -371,8 +371,7 @@ class C17(Profile):
         tb = traceback.extract_tb(exc.__traceback__)
         frames = [f for f in tb if '/stix2/' in f.filename]
         where = '%s:%s' % (os.path.basename(frames[-1].filename), frames[-1].name) if frames else '?'
-        in_parse = any(os.path.basename(f.filename) == 'parsing.py' or
-                       (os.path.basename(f.filename) == 'base.py' and f.name in ('__init__', '_check_property')) for f in frames)
+        in_parse = self.from_construction(exc)
         if entry not in PARSE_ENTRIES and not in_parse:
             # raised by store-level processing after / outside the parse-construct step: not what the clause is about
             world.stat('store_level_exception:' + type(out.exc).__name__)
@@ -382,6 +381,13 @@ class C17(Profile):
             # names the verified cause: the interpreter's recursion limit met while walking the injected nesting
             sig += '/input-nested-%d-levels' % self.deep_of(desc)
         world.report(Violation('error-family', sig, dict(entry=entry, type=op['name'], ver=op['ver'], sites=desc, exc=safe_repr(out.exc))))
+
+    def from_construction(self, exc):
+        """The failure came out of the parse / construct step (not out of store-level processing after it)."""
+        import traceback
+        frames = [f for f in traceback.extract_tb(exc.__traceback__) if '/stix2/' in f.filename]
+        return any(os.path.basename(f.filename) == 'parsing.py' or
+                   (os.path.basename(f.filename) == 'base.py' and f.name in ('__init__', '_check_property')) for f in frames)
 
     def member_order(self, op, bad, desc, out, again):
         """The order of the members of a JSON object carries no meaning: the same damaged content with every object's members
@@ -517,7 +523,7 @@ class C17(Profile):
         elif entry in ('mem_add', 'mem_add_list', 'env_add'):
             self.store_add(op, entry, base, bad, desc, i)
             return
-        elif entry in ('fs_add', 'fs_add_text'):
+        elif entry in ('fs_add', 'fs_add_text', 'fs_add_bundle'):
             self.store_add(op, entry, base, bad, desc, i)
             return
         elif entry == 'fs_read':
@@ -609,6 +615,19 @@ class C17(Profile):
         if entry == 'mem_add_list':
             seq = [good1, C._copy(bad), good2]
             arg = [C._copy(x) for x in seq]
+        elif entry == 'fs_add_bundle':
+            # ONE construction (a bundle, as dict or text) with the damaged object between two valid ones
+            v21 = 'spec_version' in base
+            g1, g2 = (good1, C.build('2.1', 'identity', op['n'] + 62, 1500000000000000, 1500000000000000 + i)) if v21 else \
+                     (C.build('2.0', 'identity', op['n'] + 63, 1500000000000000, 1500000000000000 + i * 1000), good2)
+            seq = [g1, C._copy(bad), g2]
+            if op['pos'] == 0:
+                seq = [C._copy(bad), g1, g2]
+            bd = {'type': 'bundle', 'id': C.mkid('bundle', op['n']), 'objects': [C._copy(x) for x in seq]}
+            if not v21:
+                bd['spec_version'] = '2.0'
+            arg = json.dumps(bd) if op['n'] % 2 else bd
+            self.world.probe('bundle_given_to_filesystem_sink')
         elif entry == 'fs_add_text':
             seq = [bad]
             arg = json.dumps(bad)
@@ -650,6 +669,16 @@ class C17(Profile):
                 if k2 in new and k1 not in after:
                     raise Violation('failure-atomicity', 'C17.list-add-not-prefix', dict(stored=[SW.kstr(k) for k in new]))
                 allowed_new = {k1, k2}
+            elif entry == 'fs_add_bundle' and not self.from_construction(out.exc):
+                # the bundle was constructed; a member then failed in the sink's own processing (not a failed construction):
+                # like a list, what was written before it stays
+                world.stat('bundle_member_failed_in_sink')
+                allowed_new = set()
+                for x in seq:
+                    try:
+                        allowed_new.add(SW.key_of(x))
+                    except Exception:
+                        pass        # junk id / version stamp: nothing the comparison can follow
             else:
                 allowed_new = set()
             # the failing element itself must not be stored
